@@ -714,6 +714,8 @@ class Collection(object):
                         % (operator, operator),
                     )
 
+        _validate_update_operators(document)
+
         updated_existing = False
         upserted_id = None
         num_updated = 0
@@ -1469,6 +1471,9 @@ class Collection(object):
 
         if remove and update:
             raise ValueError("Can't do both update and remove")
+
+        if update:
+            _validate_update_operators(update)
 
         # Pick the target on the full document: the projection may well drop (or empty) what
         # identifies it.
@@ -2336,3 +2341,23 @@ _updaters = {
     '$min': _min_updater,
     '$pop': _pop_updater
 }
+
+# The update operators that _apply_update implements itself.
+_OTHER_UPDATE_OPERATORS = {
+    '$rename', '$setOnInsert', '$currentDate', '$addToSet', '$pull', '$pullAll', '$push'}
+
+
+def _validate_update_operators(document):
+    """Checks the operators of an update before any document is looked for.
+
+    One that is not known is refused as it is when a document matches.
+    """
+    for index, k in enumerate(document):
+        if k in _updaters or k in _OTHER_UPDATE_OPERATORS:
+            continue
+        if index:
+            raise ValueError('Invalid modifier specified: {}'.format(k))
+        if any(key.startswith('$') for key in document):
+            raise ValueError('field names cannot start with $ [{}]'.format(k))
+        # a replacement document
+        break
